@@ -17,8 +17,10 @@ Statements are about `Dalek.Gen.Field26.from_bytes` / `as_bytes`: the LimbIR pro
 * `*_list`: the same for an arbitrary input list satisfying the contract; `*_spec'`: link to `Dalek.Spec.Field`.
 -/
 namespace Dalek.Props.C01.Bytes26
-open Dalek.IR Dalek.Proofs.Field26 Dalek.Proofs.Bytes51 Dalek.Proofs.Bytes26 Dalek.Gen.Norm.Field26 Dalek.Model.Contracts
+open Dalek.IR Dalek.Proofs.Field26 Dalek.Proofs.Bytes26 Dalek.Gen.Norm.Field26 Dalek.Model.Contracts
 open Dalek.Model.FieldBytes
+open Dalek.Proofs.Bytes51 (toZ_cons toZ_nil leValZ_toZ envIn_bytes envIn_length eq_natToLeN_of_leVal natToLeN_getD
+  leVal_natToLeN natToLeN_leVal map_ofNat_natToLeN leVal_map_toNat allBytes_map_toNat list_eq_of_length_32 AllBytes)
 
 /-- output contract of `from_bytes`: even limbs `< 2^26`, odd limbs `< 2^25` -/
 def limbs26 : List Itv := l2625 0
@@ -73,9 +75,10 @@ theorem as_bytes_spec (hin : EnvIn [a0, a1, a2, a3, a4, a5, a6, a7, a8, a9] Fiel
       leVal out = val26N [a0, a1, a2, a3, a4, a5, a6, a7, a8, a9] % P := by
   obtain ⟨out, hC, hW, hpost, hZ⟩ := Prog.norm_sound _ _ _ _ as_bytes_norm_ok _ hin
   refine ⟨out, hC, hW, EnvIn_of_itvsLe hpost (by decide +kernel), ?_⟩
-  simp only [EnvIn, Itv.mem, Field26.pre_as_bytes, l2625, ub, List.range, List.range.loop, List.map, Nat.zero_le, pow_zero,
-    one_dvd, and_true, true_and] at hin
-  norm_num at hin
+  have hpre : Field26.pre_as_bytes = [ub (2 ^ 28 - 1), ub (2 ^ 27 - 1), ub (2 ^ 28 - 1), ub (2 ^ 27 - 1), ub (2 ^ 28 - 1),
+      ub (2 ^ 27 - 1), ub (2 ^ 28 - 1), ub (2 ^ 27 - 1), ub (2 ^ 28 - 1), ub (2 ^ 27 - 1)] := by decide +kernel
+  rw [hpre] at hin
+  simp only [EnvIn, Itv.mem, ub, Nat.zero_le, pow_zero, one_dvd, and_true, true_and] at hin
   obtain ⟨h0, h1, h2, h3, h4, h5, h6, h7, h8, h9⟩ := hin
   have h := as_bytes_fn_val a0 a1 a2 a3 a4 a5 a6 a7 a8 a9
     ⟨by omega, by omega⟩ ⟨by omega, by omega⟩ ⟨by omega, by omega⟩ ⟨by omega, by omega⟩ ⟨by omega, by omega⟩ ⟨by omega, by omega⟩ ⟨by omega, by omega⟩ ⟨by omega, by omega⟩ ⟨by omega, by omega⟩ ⟨by omega, by omega⟩
